@@ -474,5 +474,10 @@ fn patterns(rate: f64, frames: usize, seed: u64) -> Vec<(&'static str, Vec<f64>)
     v.push(("zero_then_jump", (0..frames).map(|i| if i < frames / 2 { 0.0 } else { 2.5 * rate }).collect()));
     v.push(("dyadic_mix", (0..frames).map(|i| rate * [0.25, 0.5, 1.0, 0.125, 2.0][i % 5]).collect()));
     v.push(("huge_and_tiny", (0..frames).map(|i| if i % 2 == 0 { 1e6 * rate } else { 1e-9 * rate }).collect()));
+    // consecutive frequencies that are unequal but only one ulp apart (a slow glide; a value
+    // wobbling between two neighbours): "unchanged up to rounding" is not "unchanged"
+    let base = (0.25 * rate).to_bits();
+    v.push(("ulp_ramp", (0..frames).map(|i| f64::from_bits(base + i as u64)).collect()));
+    v.push(("ulp_wobble_then_ramp_down", (0..frames).map(|i| if i < frames / 3 { f64::from_bits(base + (i % 2) as u64) } else { f64::from_bits(base - (i - frames / 3) as u64) }).collect()));
     v
 }
